@@ -14,7 +14,7 @@
    Model/Ast.node, [cgen] is the generator restricted to it, [ceval] the Soy
    meaning restricted to it (proved equal to Model/Interp.v's walker in
    Proofs/MiniJSProofs.v).  Definitions only. *)
-From Soy Require Import Model.Bytes Model.Num Model.Values Model.Outcome Model.Ast Model.JsGen.
+From Soy Require Import Model.Bytes Model.Num Model.Values Model.Outcome Model.Ast Model.JsGen Model.Escape.
 Open Scope N_scope.
 
 (* ---- values ---- *)
@@ -395,3 +395,326 @@ Fixpoint wrap_escapes (ds : list pdir) (e : jexpr) : jexpr :=
 Definition cgen_print_expr (mode : N) (ds : list pdir) (e : jexpr) : jexpr :=
   let x := wrap_escapes ds e in
   match ds with [] => if mode =? 2 then x else JEEscapeHtml x | _ => x end.
+
+(* what the Go renderer writes for {print e|ds} when String() of the value is s: the text of each directive
+   (escapeHtml is template.HTMLEscapeString), or the autoescaper's htmlEscapeString when there is none *)
+Definition go_dir_text (d : pdir) (s : bstr) : bstr := match d with PEscapeHtml => tmpl_html_escape s | _ => s end.
+Fixpoint go_dirs_text (ds : list pdir) (s : bstr) : bstr :=
+  match ds with [] => s | d :: r => go_dirs_text r (go_dir_text d s) end.
+Definition go_print_text (mode : N) (ds : list pdir) (s : bstr) : bstr :=
+  match ds with [] => if mode =? 2 then s else html_escape s | _ => go_dirs_text ds s end.
+
+(* ---- statements: raw text, print, let (both forms), if / elseif / else, switch ---- *)
+(* blocks, else-chains and case lists are types of their own (mutual with statements);
+   by construction {else} is the last arm of an if and {default} the last case of a switch
+   (the parser's shape after REPAIR C04-8), and a case has at least one value *)
+Inductive cstmt :=
+| SRaw (t : bstr)
+| SPrint (e : cexpr) (ds : list pdir)
+| SLet (name : bstr) (e : cexpr)                       (* {let $name: e /} *)
+| SLetC (name : bstr) (body : cblk)                    (* {let $name}...{/let} *)
+| SIf (c : cexpr) (th : cblk) (rest : celse)
+| SSwitch (v : cexpr) (cs : ccases)
+with cblk := BNil | BCons (s : cstmt) (r : cblk)
+with celse := ENone | EElse (b : cblk) | EElif (c : cexpr) (th : cblk) (rest : celse)
+with ccases := KNone | KDefault (b : cblk) | KCase (v : cexpr) (vs : list cexpr) (b : cblk) (rest : ccases).
+
+Fixpoint snode (s : cstmt) : node :=
+  match s with
+  | SRaw t => NRawText 0 t
+  | SPrint e ds => NPrint 0 (cnode e) (map pdir_node ds)
+  | SLet name e => NLetValue 0 name (cnode e)
+  | SLetC name body => NLetContent 0 name (NList 0 (bnodes body))
+  | SIf c th rest => NIf 0 (NIfCond 0 (Some (cnode c)) (NList 0 (bnodes th)) :: enodes rest)
+  | SSwitch v cs => NSwitch 0 (cnode v) (knodes cs)
+  end
+with bnodes (b : cblk) : list node :=
+  match b with BNil => [] | BCons s r => snode s :: bnodes r end
+with enodes (e : celse) : list node :=
+  match e with
+  | ENone => []
+  | EElse b => [NIfCond 0 None (NList 0 (bnodes b))]
+  | EElif c th rest => NIfCond 0 (Some (cnode c)) (NList 0 (bnodes th)) :: enodes rest
+  end
+with knodes (k : ccases) : list node :=
+  match k with
+  | KNone => []
+  | KDefault b => [NSwitchCase 0 [] (NList 0 (bnodes b))]
+  | KCase v vs b rest => NSwitchCase 0 (cnode v :: map cnode vs) (NList 0 (bnodes b)) :: knodes rest
+  end.
+
+(* fuel that suffices for both walkers *)
+Definition cdepths (l : list cexpr) : nat := fold_right (fun x acc => Nat.max (cdepth x) acc) 0%nat l.
+Fixpoint sdepth (s : cstmt) : nat :=
+  match s with
+  | SRaw _ => 1%nat
+  | SPrint e _ => S (S (cdepth e))
+  | SLet _ e => S (S (cdepth e))
+  | SLetC _ body => S (S (bdepth body))
+  | SIf c th rest => S (S (Nat.max (cdepth c) (Nat.max (bdepth th) (edepth rest))))
+  | SSwitch v cs => S (S (Nat.max (cdepth v) (kdepth cs)))
+  end
+with bdepth (b : cblk) : nat :=
+  match b with BNil => 0%nat | BCons s r => Nat.max (S (sdepth s)) (bdepth r) end
+with edepth (e : celse) : nat :=
+  match e with
+  | ENone => 0%nat
+  | EElse b => bdepth b
+  | EElif c th rest => Nat.max (cdepth c) (Nat.max (bdepth th) (edepth rest))
+  end
+with kdepth (k : ccases) : nat :=
+  match k with
+  | KNone => 0%nat
+  | KDefault b => bdepth b
+  | KCase v vs b rest => Nat.max (Nat.max (cdepth v) (cdepths vs)) (Nat.max (bdepth b) (kdepth rest))
+  end.
+
+Inductive jstmt :=
+| JSAppendLit (buf t : bstr)                                   (* buf += 'text'; *)
+| JSAppend (buf : bstr) (e : jexpr)                            (* buf += e; *)
+| JSVar (g : bstr) (e : jexpr)                                 (* var g = e; *)
+| JSVarBlock (g : bstr) (body : jblk)                          (* var g = ''; followed by statements that append to g (no braces) *)
+| JSIf (c : jexpr) (th : jblk) (rest : jelse)                  (* if (c) {..} [else if (c) {..}]* [else {..}] *)
+| JSSwitch (v : jexpr) (cs : jcases)                           (* switch (v) { [case x:]+ .. break; ... [default: .. break;] } *)
+with jblk := JBNil | JBCons (s : jstmt) (r : jblk)
+with jelse := JLNone | JLElse (b : jblk) | JLElif (c : jexpr) (th : jblk) (rest : jelse)
+with jcases := JKNone | JKDefault (b : jblk) | JKCase (v : jexpr) (vs : list jexpr) (b : jblk) (rest : jcases).
+
+(* scope.go bind on the innermost frame (the generator crashes on an empty stack; never reached: a template
+   body and every block push a frame) *)
+Definition jsc_bind_pure (sc : list (list (bstr * bstr))) (v g : bstr) : list (list (bstr * bstr)) :=
+  match sc with f :: r => aset f v g :: r | [] => [] end.
+Definition jsc_name (v : bstr) (n : N) : bstr := v ++ t_us ++ dec_of_N n.
+
+(* the generator on statements: for an autoescape mode and a buffer variable, from a scope and a variable counter
+   to the statement, the scope after it (a let binds) and the counter (never reset: var is function-scoped).
+   A block is translated under a new empty frame that is dropped at its end. *)
+Fixpoint sgen (mode : N) (buf : bstr) (sc : list (list (bstr * bstr))) (n : N) (s : cstmt)
+  : jstmt * (list (list (bstr * bstr)) * N) :=
+  match s with
+  | SRaw t => (JSAppendLit buf t, (sc, n))
+  | SPrint e ds => (JSAppend buf (cgen_print_expr mode ds (cgen sc e)), (sc, n))
+  | SLet name e => let g := jsc_name name (n + 1) in (JSVar g (cgen sc e), (jsc_bind_pure sc name g, n + 1))
+  | SLetC name body =>
+      (* the new name is the buffer of the body and becomes visible after it *)
+      let g := jsc_name name (n + 1) in
+      let '(jb, n1) := bgen mode g ([] :: sc) (n + 1) body in
+      (JSVarBlock g jb, (jsc_bind_pure sc name g, n1))
+  | SIf c th rest =>
+      let '(jt, n1) := bgen mode buf ([] :: sc) n th in
+      let '(jr, n2) := egen mode buf sc n1 rest in
+      (JSIf (cgen sc c) jt jr, (sc, n2))
+  | SSwitch v cs => let '(jc, n1) := kgen mode buf sc n cs in (JSSwitch (cgen sc v) jc, (sc, n1))
+  end
+with bgen (mode : N) (buf : bstr) (sc : list (list (bstr * bstr))) (n : N) (b : cblk) : jblk * N :=
+  match b with
+  | BNil => (JBNil, n)
+  | BCons s r =>
+      let '(j, (sc1, n1)) := sgen mode buf sc n s in
+      let '(jr, n2) := bgen mode buf sc1 n1 r in
+      (JBCons j jr, n2)
+  end
+with egen (mode : N) (buf : bstr) (sc : list (list (bstr * bstr))) (n : N) (e : celse) : jelse * N :=
+  match e with
+  | ENone => (JLNone, n)
+  | EElse b => let '(jb, n1) := bgen mode buf ([] :: sc) n b in (JLElse jb, n1)
+  | EElif c th rest =>
+      let '(jt, n1) := bgen mode buf ([] :: sc) n th in
+      let '(jr, n2) := egen mode buf sc n1 rest in
+      (JLElif (cgen sc c) jt jr, n2)
+  end
+with kgen (mode : N) (buf : bstr) (sc : list (list (bstr * bstr))) (n : N) (k : ccases) : jcases * N :=
+  match k with
+  | KNone => (JKNone, n)
+  | KDefault b => let '(jb, n1) := bgen mode buf ([] :: sc) n b in (JKDefault jb, n1)
+  | KCase v vs b rest =>
+      let '(jb, n1) := bgen mode buf ([] :: sc) n b in
+      let '(jr, n2) := kgen mode buf sc n1 rest in
+      (JKCase (cgen sc v) (map (cgen sc) vs) jb jr, n2)
+  end.
+
+(* ---- the JavaScript meaning ---- *)
+Definition js_append_text (env : jenv) (buf t : bstr) : outcome jenv :=
+  match assoc_s buf (je_vars env) with
+  | Some (JStr old) => Ok {| je_vars := aset (je_vars env) buf (JStr (old ++ t)); je_data := je_data env |}
+  | _ => OutOfModel
+  end.
+
+(* === on primitives (objects and arrays compare by identity, which MiniJS does not have) *)
+Definition js_strict_eq (a c : jval) : option bool :=
+  match a, c with
+  | JArr _, _ | JObj _, _ | _, JArr _ | _, JObj _ => None
+  | JUndef, JUndef => Some true
+  | JNull, JNull => Some true
+  | JBool x, JBool y => Some (Bool.eqb x y)
+  | JNum x, JNum y => Some (x =? y)%Z
+  | JStr s, JStr t => Some (bstr_eqb s t)
+  | _, _ => Some false
+  end.
+(* the case expressions of one clause group are evaluated in order until one is === the switch value *)
+Fixpoint jk_hit (env : jenv) (sv : jval) (vs : list jexpr) : outcome bool :=
+  match vs with
+  | [] => Ok false
+  | x :: r => cv <- js_eval env x ;;
+              match js_strict_eq sv cv with
+              | Some true => Ok true
+              | Some false => jk_hit env sv r
+              | None => OutOfModel
+              end
+  end.
+
+(* var is function-scoped: a block does not restore anything *)
+Fixpoint js_exec (env : jenv) (s : jstmt) : outcome jenv :=
+  match s with
+  | JSAppendLit buf t => js_append_text env buf t
+  | JSAppend buf e => r <- js_append env buf e ;; Ok (snd r)
+  | JSVar g e => v <- js_eval env e ;; Ok {| je_vars := aset (je_vars env) g v; je_data := je_data env |}
+  | JSVarBlock g body => jb_exec {| je_vars := aset (je_vars env) g (JStr []); je_data := je_data env |} body
+  | JSIf c th rest => v <- js_eval env c ;; if js_truthy v then jb_exec env th else jl_exec env rest
+  | JSSwitch v cs => sv <- js_eval env v ;; jk_exec env sv cs
+  end
+with jb_exec (env : jenv) (b : jblk) : outcome jenv :=
+  match b with JBNil => Ok env | JBCons s r => env' <- js_exec env s ;; jb_exec env' r end
+with jl_exec (env : jenv) (e : jelse) : outcome jenv :=
+  match e with
+  | JLNone => Ok env
+  | JLElse b => jb_exec env b
+  | JLElif c th rest => v <- js_eval env c ;; if js_truthy v then jb_exec env th else jl_exec env rest
+  end
+with jk_exec (env : jenv) (sv : jval) (k : jcases) : outcome jenv :=
+  match k with
+  | JKNone => Ok env
+  | JKDefault b => jb_exec env b
+  | JKCase v vs b rest => h <- jk_hit env sv (v :: vs) ;; if h then jb_exec env b else jk_exec env sv rest
+  end.
+
+(* ---- the Soy meaning: the bytes written and the environment afterwards (None = an error, or outside the subset) ---- *)
+Definition scalar_string (v : value) : option bstr :=
+  match v with
+  | VStr s => Some s
+  | VInt z => Some (dec_of_Z z)
+  | VBool true => Some s_true
+  | VBool false => Some s_false
+  | VNull => Some s_null
+  | _ => None
+  end.
+Definition cleanb (s : bstr) : bool := forallb (fun c => negb (c =? 0) && negb (c =? 34)) s.
+Definition prim_value (v : value) : bool :=
+  match v with VUndef | VNull | VBool _ | VInt _ | VStr _ => true | _ => false end.
+Definition env_set (env : bstr -> option value) (k : bstr) (v : value) : bstr -> option value :=
+  fun x => if bstr_eqb x k then Some v else env x.
+
+Section Sout.
+  Variable ij : option value.
+  Variable mode : N.
+  Variable print_text : N -> list pdir -> bstr -> bstr.      (* go_print_text of Proofs/MiniJSStmt.v *)
+
+  (* does one of the case values equal the switch value (all of them primitive) *)
+  Fixpoint khit (env : bstr -> option value) (sv : value) (vs : list cexpr) : option bool :=
+    match vs with
+    | [] => Some false
+    | x :: r => match ceval ij env x with
+                | Some cv => if prim_value cv then (if equals sv cv then Some true else khit env sv r) else None
+                | None => None
+                end
+    end.
+
+  Fixpoint sout (env : bstr -> option value) (s : cstmt) : option (bstr * (bstr -> option value)) :=
+    match s with
+    | SRaw t => Some (t, env)
+    | SPrint e ds =>
+        match ceval ij env e with
+        | Some v => match scalar_string v with
+                    | Some str => if cleanb str then Some (print_text mode ds str, env) else None
+                    | None => None
+                    end
+        | None => None
+        end
+    | SLet name e =>
+        if bstr_eqb name n_ij then None
+        else match ceval ij env e with Some v => Some ([], env_set env name v) | None => None end
+    | SLetC name body =>
+        if bstr_eqb name n_ij then None
+        else match bout env body with Some t => Some ([], env_set env name (VStr t)) | None => None end
+    | SIf c th rest =>
+        match ceval ij env c with
+        | Some v => match (if truthy v then bout env th else eout env rest) with Some t => Some (t, env) | None => None end
+        | None => None
+        end
+    | SSwitch v cs =>
+        match ceval ij env v with
+        | Some sv => if prim_value sv
+                     then match kout env sv cs with Some t => Some (t, env) | None => None end
+                     else None
+        | None => None
+        end
+    end
+  with bout (env : bstr -> option value) (b : cblk) : option bstr :=
+    match b with
+    | BNil => Some []
+    | BCons s r => match sout env s with
+                   | Some (a, env1) => match bout env1 r with Some c => Some (a ++ c) | None => None end
+                   | None => None
+                   end
+    end
+  with eout (env : bstr -> option value) (e : celse) : option bstr :=
+    match e with
+    | ENone => Some []
+    | EElse b => bout env b
+    | EElif c th rest =>
+        match ceval ij env c with
+        | Some v => if truthy v then bout env th else eout env rest
+        | None => None
+        end
+    end
+  with kout (env : bstr -> option value) (sv : value) (k : ccases) : option bstr :=
+    match k with
+    | KNone => Some []
+    | KDefault b => bout env b
+    | KCase v vs b rest =>
+        match khit env sv (v :: vs) with
+        | Some true => bout env b
+        | Some false => kout env sv rest
+        | None => None
+        end
+    end.
+End Sout.
+
+(* ---- the printer of statements at an indentation level: the chunks of JsGen ---- *)
+Definition sp_ind (ind : nat) : list chunk := [CText (indent_text ind)].
+Fixpoint jk_values (ind : nat) (vs : list jexpr) : list chunk :=
+  match vs with
+  | [] => []
+  | v :: r => sp_ind ind ++ [CText t_case] ++ jprint v ++ [CText t_colon; CText t_nl] ++ jk_values ind r
+  end.
+Fixpoint sprint (ind : nat) (s : jstmt) : list chunk :=
+  match s with
+  | JSAppendLit buf t => [CText (indent_text ind); CName buf; CText t_pluseq; CStrLit 39 t; CText t_semi_nl]
+  | JSAppend buf e => [CText (indent_text ind); CName buf; CText t_pluseq] ++ jprint e ++ [CText t_semi_nl]
+  | JSVar g e => sp_ind ind ++ ([CText t_var; CName g; CText t_eq] ++ jprint e ++ [CText t_semi]) ++ [CText t_nl]
+  | JSVarBlock g body => sp_ind ind ++ [CText t_var; CName g; CText t_eq_empty] ++ [CText t_nl] ++ bprint ind body
+  | JSIf c th rest =>
+      sp_ind ind ++ [CText t_if_open] ++ jprint c ++ [CText t_op_mid1; CText t_brace_nl] ++ bprint (S ind) th
+      ++ sp_ind ind ++ [CText t_rbrace] ++ lprint ind rest ++ [CText t_nl]
+  | JSSwitch v cs =>
+      sp_ind ind ++ [CText t_switch_open] ++ jprint v ++ [CText t_for_close; CText t_nl] ++ kprint (S ind) cs
+      ++ sp_ind ind ++ [CText t_rbrace; CText t_nl]
+  end
+with bprint (ind : nat) (b : jblk) : list chunk :=
+  match b with JBNil => [] | JBCons s r => sprint ind s ++ bprint ind r end
+with lprint (ind : nat) (e : jelse) : list chunk :=
+  match e with
+  | JLNone => []
+  | JLElse b => [CText t_else; CText t_brace_nl] ++ bprint (S ind) b ++ sp_ind ind ++ [CText t_rbrace]
+  | JLElif c th rest =>
+      [CText t_else; CText t_if_open] ++ jprint c ++ [CText t_op_mid1; CText t_brace_nl] ++ bprint (S ind) th
+      ++ sp_ind ind ++ [CText t_rbrace] ++ lprint ind rest
+  end
+with kprint (ind : nat) (k : jcases) : list chunk :=
+  match k with
+  | JKNone => []
+  | JKDefault b =>
+      sp_ind ind ++ [CText t_default; CText t_nl] ++ bprint (S ind) b ++ sp_ind (S ind) ++ [CText t_break; CText t_nl]
+  | JKCase v vs b rest =>
+      jk_values ind (v :: vs) ++ bprint (S ind) b ++ sp_ind (S ind) ++ [CText t_break; CText t_nl] ++ kprint ind rest
+  end.
